@@ -247,6 +247,32 @@ def field_and_group(mname: str, field: str, node):
     return found[0]
 
 
+def static_truth(test, env):
+    """True / False when the static types decide the test, else None: `x is None` / `x is not None` for a variable whose type
+    has no None (or is None), `and` / `or` / `not` of such."""
+    if isinstance(test, ast.Compare) and len(test.ops) == 1 and isinstance(test.ops[0], (ast.Is, ast.IsNot)) and isinstance(test.left, ast.Name) \
+            and isinstance(test.comparators[0], ast.Constant) and test.comparators[0].value is None and test.left.id in env:
+        t = env[test.left.id]
+        if t == "none":
+            return isinstance(test.ops[0], ast.Is)
+        if t in ("int", "str", "bool") or (isinstance(t, tuple) and t[0] in ("obj", "seq", "iter", "pb", "dict", "set", "tuple")):
+            return isinstance(test.ops[0], ast.IsNot)
+        return None
+    if isinstance(test, ast.BoolOp):
+        vals = [static_truth(v, env) for v in test.values]
+        if isinstance(test.op, ast.Or):
+            if any(v is True for v in vals):
+                return True
+            return False if all(v is False for v in vals) else None
+        if any(v is False for v in vals):
+            return False
+        return True if all(v is True for v in vals) else None
+    if isinstance(test, ast.UnaryOp) and isinstance(test.op, ast.Not):
+        v = static_truth(test.operand, env)
+        return None if v is None else not v
+    return None
+
+
 def only_message_use(name: str, stmts: list) -> bool:
     """Is every later read of `name` an argument of `raise X(..)` or a part of an f-string?"""
     loads = in_msg = 0
@@ -429,6 +455,8 @@ def _add_dataclass(self, node: ast.ClassDef):
                 continue  # not part of the state machine: alternative constructors, printing
             if decos not in ([], ["property"]):
                 bad(n, "decorator")
+            if decos == ["property"]:
+                info.properties = getattr(info, "properties", set()) | {n.name}
             methods.append(n)
             continue
         bad(n, "class-level statement")
@@ -517,12 +545,31 @@ def emit_function(tr: Translator, name: str, body_stmts: list, params: list, ret
 
 def add_function(tr: Translator, node: ast.FunctionDef):
     a = node.args
-    if a.vararg or a.kwarg or a.posonlyargs or a.defaults or any(d is not None for d in a.kw_defaults):
-        bad(node, "parameter kinds / defaults")
-    params = [(p.arg, ann_type(p.annotation, tr.classes)) for p in (a.args + a.kwonlyargs)]
-    ret = ann_type(node.returns, tr.classes)
+    spec = getattr(tr, "func_specs", {}).get(node.name, {})
+    fixed = set(spec.get("fixed_none", ()))  # parameters the unit fixes to None (every caller in the translated code leaves them out)
+    dropped = set(spec.get("unused", ()))    # parameters that nothing reads once the unit's choices are made
+    if a.vararg or a.kwarg or a.posonlyargs:
+        bad(node, "parameter kinds")
+    pos_defaults = dict(zip([p.arg for p in a.args[len(a.args) - len(a.defaults):]], a.defaults))
+    kw_defaults = {p.arg: d for p, d in zip(a.kwonlyargs, a.kw_defaults) if d is not None}
+    for pn, d in {**pos_defaults, **kw_defaults}.items():
+        if pn in fixed | dropped:
+            if pn in fixed and not (isinstance(d, ast.Constant) and d.value is None):
+                bad(node, f"{pn} is fixed to None by the unit but defaults to something else")
+        elif not (pn in spec.get("param_types", {}) ):
+            bad(node, "parameter kinds / defaults")
+
+    def ptype(p_):
+        ov = spec.get("param_types", {}).get(p_.arg)
+        return ann_type(ast.parse(ov, mode="eval").body if ov else p_.annotation, tr.classes)
+    params = [(p.arg, ptype(p)) for p in (a.args + a.kwonlyargs) if p.arg not in fixed | dropped]
+    ret = ann_type(ast.parse(spec["returns"], mode="eval").body if "returns" in spec else node.returns, tr.classes)
     tr.functions[node.name] = (params, ret)
-    emit_function(tr, node.name, node.body, params, ret)
+    body = list(node.body)
+    for pn in sorted(fixed):
+        asg = ast.Assign(targets=[ast.Name(id=pn, ctx=ast.Store())], value=ast.Constant(value=None))
+        body.insert(0, ast.fix_missing_locations(ast.copy_location(asg, node)))
+    emit_function(tr, node.name, body, params, ret)
 
 
 class Mode:
@@ -627,6 +674,48 @@ class Mode:
                 ast.fix_missing_locations(st)
             return self.stmts([a, i2] + rest, env)
         # yield e  (generators: the values yielded so far are the list ys__)
+        if isinstance(s, ast.Pass) and hasattr(s, "_raise_if"):
+            ex_ = self.tr.gensym("e")
+            return f"match {s._raise_if} with\n| Exn {ex_} => {self.on_exn(ex_)}\n| Val _ =>\n{self.stmts(rest, env)}\nend"
+        gc = None
+        if isinstance(s, ast.Expr) and isinstance(s.value, (ast.Yield, ast.YieldFrom)) and isinstance(s.value.value, ast.Call):
+            gc = self.gen_call(s.value.value, env)
+        if gc is not None:
+            # yield <generator call> / yield from <generator call>: the callee runs (eagerly, in this model); what it yielded is
+            # handed on -- also when it ended with an exception, which is raised after
+            if "ys__" not in env:
+                bad(s, "yield outside a generator")
+
+            def k_gen(code, r_, ys_, yt_, env_):
+                item = f"[{ys_}]" if isinstance(s.value, ast.Yield) else ys_
+                want = env["ys__"][1] if isinstance(s.value, ast.Yield) else env["ys__"]
+                have = ("seq", yt_) if isinstance(s.value, ast.Yield) else ("seq", yt_)
+                if not compat(have, want):
+                    bad(s, f"yielding {have} where {want} is expected")
+                marker = ast.Pass()
+                marker._raise_if = r_
+                return code + f"let ys__ := (ys__ ++ {item}) in\n" + self.stmts([marker] + rest, env_)
+            return gc(k_gen)
+        if isinstance(s, ast.Expr) and isinstance(s.value, ast.YieldFrom) and isinstance(s.value.value, ast.Name) \
+                and isinstance(env.get(s.value.value.id), tuple) and env[s.value.value.id][0] in ("seq", "iter"):
+            if "ys__" not in env or not compat(("seq", env[s.value.value.id][1]), env["ys__"]):
+                bad(s, "yield from")
+            return f"let ys__ := (ys__ ++ {mangle(s.value.value.id)}) in\n{self.stmts(rest, env)}"
+        if isinstance(s, ast.For) and isinstance(s.iter, ast.Call) and self.gen_call(s.iter, env) is not None:
+            gcf = self.gen_call(s.iter, env)
+
+            def k_for(code, r_, ys_, yt_, env_):
+                tmp = self.tr.gensym("items")
+                marker = ast.Pass()
+                marker._raise_if = r_
+                loop = ast.For(target=s.target, iter=ast.Name(id=tmp, ctx=ast.Load()), body=s.body, orelse=s.orelse)
+                ast.fix_missing_locations(ast.copy_location(loop, s))
+                env2 = dict(env_)
+                env2[tmp] = ("seq", yt_)
+                return code + f"let {tmp} := {ys_} in\n" + self.stmts([loop, marker] + rest, env2)
+            return gcf(k_for)
+        if isinstance(s, ast.AnnAssign) and s.value is None and isinstance(s.target, ast.Name):
+            return self.stmts(rest, env)  # a local declared without a value
         if isinstance(s, ast.Expr) and isinstance(s.value, ast.Yield) and s.value.value is not None:
             if "ys__" not in env:
                 bad(s, "yield outside a generator")
@@ -689,6 +778,11 @@ class Mode:
             env_some = dict(env)
             env_some[x] = t[1]
             return (f"match {mangle(x)} with\n| None =>\n{self.stmts(none_b + rest, dict(env))}\n| Some {mangle(x)} =>\n{self.stmts(some_b + rest, env_some)}\nend")
+        if isinstance(s, ast.If):
+            st_ = static_truth(s.test, env)
+            if st_ is not None:
+                # a test decided by the static types (x is None for a value that cannot be None): only that branch exists here
+                return self.stmts((s.body if st_ else s.orelse) + rest, env)
         if isinstance(s, ast.If):
             first = s.test.values[0] if isinstance(s.test, ast.BoolOp) and isinstance(s.test.op, ast.And) else s.test
             if isinstance(first, ast.Name) and env.get(first.id) == "none":
@@ -794,6 +888,13 @@ class Mode:
                     env2[tgt.id] = ("ename", val.func.value.attr)
                     return f"if {test} then\nlet {mangle(tgt.id)} := {v} in\n{self.stmts(rest, env2)}\nelse {self.on_exn('ValueError')}"
                 return self.expr(val.args[0], env, k_en)
+            # x = A if c else B for a name only messages read: as the if statement (each branch a message assignment of its own)
+            if isinstance(tgt, ast.Name) and isinstance(val, ast.IfExp) and only_message_use(tgt.id, rest) and isinstance(s, ast.Assign):
+                def asg(v_):
+                    a_ = ast.Assign(targets=[ast.Name(id=tgt.id, ctx=ast.Store())], value=v_)
+                    return ast.fix_missing_locations(ast.copy_location(a_, s))
+                iff = ast.If(test=val.test, body=[asg(val.body)], orelse=[asg(val.orelse)])
+                return self.stmts([ast.fix_missing_locations(ast.copy_location(iff, s))] + rest, env)
             # message strings
             if isinstance(tgt, ast.Name) and isinstance(val, (ast.JoinedStr, ast.Constant)) and (isinstance(val, ast.JoinedStr) or isinstance(val.value, str)) \
                     and (isinstance(val, ast.JoinedStr) or only_message_use(tgt.id, rest)):
@@ -950,6 +1051,38 @@ class Mode:
             return self.stmts([eq] + rest, env)
         bad(s, "statement")
 
+    def gen_call(self, e, env):
+        """A call of a generator the unit translates (a module function, or a method of a local object): None, or a function
+        that, given k(code, result variable, yields variable, yield type, env), produces the code."""
+        tr = self.tr
+        f = e.func
+        if isinstance(f, ast.Name) and f.id in tr.functions and isinstance(tr.functions[f.id][1], tuple) and tr.functions[f.id][1][0] == "gen" \
+                and f.id not in env:
+            params, ret = tr.functions[f.id]
+            if any(is_mutable(t) and p not in tr.readonly_params.get(f.id, set()) and not (isinstance(t, tuple) and t[0] in ("seq", "iter")) for p, t in params):
+                return None
+            r_, ys_ = tr.gensym("r"), tr.gensym("ys")
+            nouts = sum(1 for p, t in params if is_mutable(t) and p not in tr.readonly_params.get(f.id, set()))
+
+            def run(k):
+                outs = [tr.gensym("o") for _ in range(nouts)]  # (lists passed in and consumed: what is left is not used again)
+                return self.args(e, params, env, lambda a: k(f"let '({', '.join([r_] + outs + [ys_])}) := {f.id} {' '.join(a)} in\n", r_, ys_, ret[1], env))
+            return run
+        if isinstance(f, ast.Attribute) and isinstance(f.value, ast.Name) and isinstance(env.get(f.value.id), tuple) and env[f.value.id][0] == "obj":
+            sub = tr.classes.get(env[f.value.id][1])
+            gens = getattr(sub, "generators", {}) if sub else {}
+            if f.attr in gens:
+                params, _ = sub.methods[f.attr]
+                if any(is_mutable(t) for p, t in params if not (isinstance(t, tuple) and t[0] == "pb")):
+                    return None
+                r_, ys_ = tr.gensym("r"), tr.gensym("ys")
+                nm = mangle(f.value.id)
+
+                def run(k):
+                    return self.args(e, params, env, lambda a: k(f"let '({r_}, {nm}, {ys_}) := {sub.name}_{f.attr} {' '.join(a)} {nm} in\n", r_, ys_, gens[f.attr], env))
+                return run
+        return None
+
     def state_vars(self, env, body) -> list[tuple[str, object]]:
         """The variables a loop carries from one iteration to the next (besides self and the in/out parameters)."""
         assigned = set()
@@ -965,6 +1098,15 @@ class Mode:
                     assigned.add(n.value.id)
                 if isinstance(n, ast.Subscript) and isinstance(n.ctx, ast.Store) and isinstance(n.value, ast.Name):
                     assigned.add(n.value.id)
+                # a local object whose method is called, or that is handed to a call, may be changed by it
+                if isinstance(n, ast.Call):
+                    if isinstance(n.func, ast.Attribute) and isinstance(n.func.value, ast.Name) \
+                            and isinstance(env.get(n.func.value.id), tuple) and env[n.func.value.id][0] == "obj" and is_mutable(env[n.func.value.id]):
+                        assigned.add(n.func.value.id)
+                    for a_ in list(n.args) + [kw.value for kw in n.keywords]:
+                        if isinstance(a_, ast.Name) and isinstance(env.get(a_.id), tuple) and is_mutable(env[a_.id]) \
+                                and not (isinstance(n.func, ast.Name) and n.func.id in ("len", "isinstance", "type", "iter", "getattr")):
+                            assigned.add(a_.id)
         muts = {p for p, _ in getattr(self, "muts", [])}
         return [(v, t) for v, t in env.items() if not v.startswith("__") and t not in ("errmsg",) and (v in assigned or v == "ys__") and v not in muts and v != "self"]
 
@@ -1166,6 +1308,15 @@ class Mode:
         if isinstance(e, ast.Attribute) and isinstance(e.value, ast.Name) and isinstance(env.get(e.value.id), tuple) and env[e.value.id][0] == "pb":
             v, t = self.msg_read(mangle(e.value.id), env[e.value.id][1], e.attr, e)
             return k(v, t)
+        if isinstance(e, ast.Attribute) and isinstance(e.value, ast.Name) and isinstance(env.get(e.value.id), tuple) and env[e.value.id][0] == "obj" \
+                and e.attr in getattr(tr.classes.get(env[e.value.id][1]), "properties", ()):
+            # x.p for a property p of a translated class: the call of its getter
+            sub_ = tr.classes[env[e.value.id][1]]
+            _, pret = sub_.methods[e.attr]
+            r_, ex_, x_ = tr.gensym("r"), tr.gensym("e"), tr.gensym("x")
+            nm_ = mangle(e.value.id)
+            return (f"let '({r_}, {nm_}) := {sub_.name}_{e.attr} {nm_} in\nmatch {r_} with\n| Exn {ex_} => {self.on_exn(ex_)}\n"
+                    f"| Val {x_} =>\n{k(x_, pret)}\nend")
         if isinstance(e, ast.Attribute):
             v, t = self.attr(e)
             return k(v, t)
@@ -1262,6 +1413,10 @@ class Mode:
                 return self.expr(l, env, k_in)
             if isinstance(op, (ast.Is, ast.IsNot)) and isinstance(r, ast.Constant) and r.value is None:
                 def k_is(a, at):
+                    if at in ("int", "str", "bool") or (isinstance(at, tuple) and at[0] in ("obj", "seq", "iter", "pb", "dict", "set", "tuple")):
+                        return k("false" if isinstance(op, ast.Is) else "true", "bool")  # a value of that type is not None
+                    if at == "none":
+                        return k("true" if isinstance(op, ast.Is) else "false", "bool")
                     if not (isinstance(at, tuple) and at[0] == "opt"):
                         bad(e, "is None on a non-optional")
                     c = f"(match {a} with None => true | Some _ => false end)"
@@ -1573,10 +1728,16 @@ class Mode:
             x_ = mangle(e.args[0].id)
             return k("(" + " || ".join(f"is_O_{c.id} {x_}" for c in cls_nodes) + ")", "bool")
         # constructors of a class of a family (keyword arguments; None for the optional ones left out)
-        if isinstance(f, ast.Name) and f.id in getattr(tr, "ctor_params", {}) and not e.args:
+        if isinstance(f, ast.Name) and f.id in getattr(tr, "ctor_params", {}) and f.id not in env:
             params = tr.ctor_params[f.id]
             root = tr.class_tags[f.id][0]
-            given = {kw.arg: kw.value for kw in e.keywords}
+            if len(e.args) > len(params):
+                bad(e, "constructor arguments")
+            given = {p_: a_ for (p_, _, _), a_ in zip(params, e.args)}
+            for kw in e.keywords:
+                if kw.arg in given:
+                    bad(e, "constructor argument given twice")
+                given[kw.arg] = kw.value
             if not set(given) <= {p for p, _, _ in params} or any(p not in given and not has_d for p, _, has_d in params):
                 bad(e, "constructor arguments")
             call = ast.Call(func=f, args=[], keywords=[ast.keyword(arg=p, value=given.get(p, ast.Constant(value=None))) for p, _, _ in params])
@@ -1629,6 +1790,12 @@ class Mode:
                             f"| None => {self.on_exn('AttributeError')}\n| Some {v_} =>\n{k(v_, ('pb', '*'))}\nend\nend")
                 bad(e, "getattr with a computed name")
             return self.expr(e.args[1], env, k_fn)
+        # getattr(x, "field", default) on an object of a translated class that has the field: the field
+        if isinstance(f, ast.Name) and f.id == "getattr" and len(e.args) == 3 and not e.keywords and isinstance(e.args[0], ast.Name) \
+                and isinstance(env.get(e.args[0].id), tuple) and env[e.args[0].id][0] == "obj" and isinstance(e.args[1], ast.Constant) \
+                and isinstance(e.args[1].value, str) and tr.classes[env[e.args[0].id][1]].ftype(e.args[1].value) is not None and is_pure(e.args[2]):
+            c_ = tr.classes[env[e.args[0].id][1]]
+            return k(f"({c_.name}_{e.args[1].value} {mangle(e.args[0].id)})", c_.ftype(e.args[1].value))
         # getattr(m, "field", default) on a message: the field if the class has it, else the default
         if isinstance(f, ast.Name) and f.id == "getattr" and len(e.args) == 3 and not e.keywords and isinstance(e.args[0], ast.Name) \
                 and isinstance(env.get(e.args[0].id), tuple) and env[e.args[0].id][0] == "pb" and isinstance(e.args[1], ast.Constant) \
@@ -1978,7 +2145,10 @@ UNITS = {
                      "items": [{"dyn": "obj", "src": "pyjelly/integrations/generic/generic_sink.py",
                                 "classes": ["IRI", "BlankNode", "Literal", "Triple", "Quad", "Prefix"], "singletons": {"DefaultGraph": "_DefaultGraph"}}]},
     "generic_parse": {"src": "pyjelly/integrations/generic/parse.py", "ctx": True, "uses": ["lookup_dec", "options", "decode", "generic_sink"],
-                      "uses_only": {"decode": ["ParserOptions"], "lookup_dec": []}, "gen": "GenericParseGen",
+                      "gen": "GenericParseGen",
+                      "defines": ["Adapter", "Adapter_options", "Adapter_iri", "Adapter_default_graph", "Adapter_bnode", "Adapter_literal", "Adapter_triple",
+                                  "Adapter_quad", "Adapter_graph_start", "Adapter_graph_end", "Adapter_namespace_declaration", "Adapter_quoted_triple",
+                                  "Adapter_frame"],
                       "items": [
                           {"dyn": "obj", "imported": True, "src": "pyjelly/integrations/generic/generic_sink.py",
                            "classes": ["IRI", "BlankNode", "Literal", "Triple", "Quad", "Prefix"], "singletons": {"DefaultGraph": "_DefaultGraph"}},
@@ -1986,9 +2156,21 @@ UNITS = {
                           {"family": "Adapter", "extra_src": ["pyjelly/parse/decode.py"], "anchor": "GenericStatementSinkAdapter",
                            "classes": ["Adapter", "GenericStatementSinkAdapter", "GenericTriplesAdapter", "GenericQuadsBaseAdapter",
                                        "GenericQuadsAdapter", "GenericGraphsAdapter"],
-                           "skip_fields": ["parsing_mode"], "drop_params": ["parsing_mode"],
+                           "skip_fields": ["parsing_mode"], "drop_params": ["parsing_mode"], "then_deferred": True,
                            # (the source annotates the decoded IRI handed to namespace_declaration as `str` in the base class)
-                           "param_types": {"namespace_declaration.iri": "Any"}}]},
+                           "param_types": {"namespace_declaration.iri": "Any"}},
+                          "parse_triples_stream", "parse_quads_stream", "parse_jelly_flat"],
+                      "functions": {
+                          # frame_metadata (a ContextVar the caller may pass to receive each frame's metadata) is left out: None
+                          "parse_triples_stream": {"fixed_none": ["frame_metadata"], "param_types": {"frames": "list[jelly.RdfStreamFrame]"},
+                                                   "returns": "Generator[list[Any | None]]"},
+                          "parse_quads_stream": {"fixed_none": ["frame_metadata"], "param_types": {"frames": "list[jelly.RdfStreamFrame]"},
+                                                 "returns": "Generator[list[Any | None]]"},
+                          # the flat parser once options and frames have been read (get_options_and_frames: IO, not translated):
+                          # called with frames and options given, it does not touch inp
+                          "parse_jelly_flat": {"unused": ["inp"], "param_types": {"frames": "list[jelly.RdfStreamFrame]", "options": "ParserOptions",
+                                                                                  "logical_type_strict": "bool"},
+                                               "returns": "Generator[Any | None]"}}},
     # the generic integration's term encoder: the two methods TermEncoder leaves to its subclasses, over the generic terms
     "generic_serialize": {"src": "pyjelly/integrations/generic/serialize.py", "ctx": True, "uses": ["lookup_enc", "options", "encode", "generic_sink"],
                           "gen": "GenericSerializeGen",
@@ -2085,6 +2267,7 @@ def ctx_analysis(out: list[str], imported: dict[str, list[str]], any_ctx: bool, 
                 deps[x] = d
             implicit += [mk] + projs
     ordered = {n: [v for v in order if v in d] for n, d in deps.items()}
+    ctx_analysis.implicit_types = set(implicit_types)
     return ordered, implicit, decls
 
 
@@ -2113,7 +2296,9 @@ def run_unit(repo: Path, unit: str) -> tuple["Translator", set[str], list[str]]:
     tr.deferred_abbrev: list[str] = []
     ext_specs = [i for i in (u["items"] or []) if isinstance(i, dict) and "extend" in i]
     defined_virtuals = {f"{s_['extend']}_{m_}" for s_ in ext_specs for m_ in s_["methods"]} | ({"any_eqb"} if ext_specs else set())
+    defined_virtuals |= set(u.get("defines", ()))  # section variables of the units built on (an opaque class, its methods) that this unit defines
     tr.defined_virtuals = defined_virtuals
+    dyn_unit = any(isinstance(i, dict) and "dyn" in i for i in (u["items"] or []))
     for dep in u["uses"]:
         dtr, dinfo = run_unit(repo, dep)
         only = u.get("uses_only", {}).get(dep)  # import only the named classes of that unit (none of its section variables)
@@ -2139,7 +2324,7 @@ def run_unit(repo: Path, unit: str) -> tuple["Translator", set[str], list[str]]:
                 setattr(tr, attr, cur)
         tr.dict_consts.update(dtr.dict_consts)
         for v, decl in dinfo["decls"]:
-            if v not in [x for x, _ in tr.import_decls] and v not in defined_virtuals and not (v == "T" and ext_specs):
+            if v not in [x for x, _ in tr.import_decls] and v not in defined_virtuals and not (v == "T" and (ext_specs or dyn_unit)):
                 tr.import_decls.append((v, decl))
         for n in sorted(dinfo["deps"]):
             if n in dinfo["implicit"] and dinfo["deps"][n] == ["S"]:
@@ -2147,6 +2332,9 @@ def run_unit(repo: Path, unit: str) -> tuple["Translator", set[str], list[str]]:
             vs = dinfo["deps"][n]
             explicit = [v for v in vs if v != "T"]
             line = f"Notation {n} := ({UNITS[dep]['gen']}.{n} {' '.join(explicit)})."
+            if set(vs) & defined_virtuals and any(v in dinfo.get("implicit_types", ()) for v in vs):
+                # the type parameters too are defined here (T := obj, the opaque class := this unit's record): given explicitly
+                line = f"Notation {n} := (@{UNITS[dep]['gen']}.{n} {' '.join('obj' if v == 'T' and dyn_unit else v for v in vs)})."
             tr.import_info[n] = (UNITS[dep]["gen"], vs)
             if set(vs) & defined_virtuals:
                 tr.deferred_abbrev.append(line)  # after the definitions of the parameters it takes (extend.py)
@@ -2167,6 +2355,7 @@ def run_unit(repo: Path, unit: str) -> tuple["Translator", set[str], list[str]]:
     dyn_specs = [i for i in (items or []) if isinstance(i, dict) and "dyn" in i]
     ext_funcs = [i for i in (items or []) if isinstance(i, dict) and "function" in i]
     items = None if items is None else [i for i in items if not (isinstance(i, dict) and ("dyn" in i or "function" in i))]
+    tr.func_specs = u.get("functions", {})
     for spec in dyn_specs:
         import dyn
         tr.out.append(f"(* ---- dynamic values ({spec['src']}): {', '.join(spec['classes'])}; {', '.join(spec.get('singletons', {}))} *)")
@@ -2271,6 +2460,9 @@ def run_unit(repo: Path, unit: str) -> tuple["Translator", set[str], list[str]]:
                 bad(n, f"{rel} no longer defines the classes {spec['classes']} in that order")
             tr.out.append(f"(* ---- class family {spec['family']} ({rel}): {', '.join(spec['classes'])} *)")
             family.add_family(tr, spec["family"], nodes, spec.get("userlist", False), rel, tuple(spec.get("skip", ())), spec)
+            if spec.get("then_deferred"):
+                tr.out += tr.deferred_abbrev  # the imported definitions that were waiting for this family's methods
+                tr.deferred_abbrev = []
             continue
         if isinstance(n, (ast.Assign, ast.AnnAssign)) and isinstance(n.value, ast.Dict):
             # {jelly constant: class of a family}
@@ -2307,7 +2499,8 @@ def run_unit(repo: Path, unit: str) -> tuple["Translator", set[str], list[str]]:
     any_ctx = bool(u["ctx"]) and not getattr(tr, "dyn", False) and (
         tr.uses_any or any(re.search(r"\bT\b", o) for o in tr.out) or any(v == "T" for v, _ in tr.import_decls))
     deps, implicit, decls = ctx_analysis(tr.out, imported, any_ctx, tr.import_decls, dyn=getattr(tr, "dyn", False)) if u["ctx"] else ({}, [], [])
-    return tr, {"deps": deps, "implicit": implicit, "decls": decls, "any": any_ctx}
+    return tr, {"deps": deps, "implicit": implicit, "decls": decls, "any": any_ctx,
+                "implicit_types": getattr(ctx_analysis, "implicit_types", set()) if u["ctx"] else set()}
 
 
 def translate_unit(repo: Path, unit: str) -> str:
